@@ -214,22 +214,35 @@ func genC11HTML(r *core.Rand) c11Host {
 func genC11SVG(r *core.Rand) c11Host {
 	var sb strings.Builder
 	var slots []c11Slot
-	sb.WriteString("<svg xmlns=\"http://www.w3.org/2000/svg\">")
+	// the document default for style content: text/css unless the root declares contentStyleType
+	docType := "text/css"
+	sb.WriteString("<svg xmlns=\"http://www.w3.org/2000/svg\"")
+	if r.Chance(1, 3) {
+		docType = r.Pick([]string{"text/less", "text/x-custom", "text/css"})
+		sb.WriteString(" contentStyleType=\"" + docType + "\"")
+	}
+	sb.WriteString(">")
 	n := r.Range(1, 3)
 	for i := 0; i < n; i++ {
 		if r.Bool() {
 			payload := r.Pick([]string{"a{fill:red}", "rect { stroke : blue }", ".c{opacity:.5}"})
+			mt := docType
 			open, close := "<style>", "</style>"
 			if r.Chance(1, 3) {
-				open, close = "<style><![CDATA[", "]]></style>"
+				// the element's own type attribute wins over the document default
+				mt = r.Pick([]string{"text/less", "text/css", "text/x-custom"})
+				open = "<style type=\"" + mt + "\">"
+			}
+			if r.Chance(1, 3) {
+				open, close = open+"<![CDATA[", "]]></style>"
 			}
 			sb.WriteString(open)
-			slots = append(slots, c11Slot{Kind: "svgstyle", Mediatype: "text/css", Params: "", Payload: payload, Offset: sb.Len()})
+			slots = append(slots, c11Slot{Kind: "svgstyle", Mediatype: mt, Params: "", Payload: payload, Offset: sb.Len()})
 			sb.WriteString(payload + close)
 		} else {
 			payload := r.Pick([]string{"fill : red", "stroke:blue;opacity:1", "fill:url(#a)"})
 			sb.WriteString("<rect width=\"1\" style=\"")
-			slots = append(slots, c11Slot{Kind: "svgstyleattr", Mediatype: "text/css", Params: "inline=1", Payload: payload, Offset: sb.Len()})
+			slots = append(slots, c11Slot{Kind: "svgstyleattr", Mediatype: docType, Params: "inline=1", Payload: payload, Offset: sb.Len()})
 			sb.WriteString(payload + "\"/>")
 		}
 	}
